@@ -11,6 +11,7 @@ larger cases.  Failing-input search: an independent big-integer reference of eac
 (`Oracle`), evaluated on the implementation's answers; a sanitizer report or a changed guard byte is a failure
 of the property on the implementation.
 """
+import ast
 import concurrent.futures
 import json
 import os
@@ -97,9 +98,26 @@ class Oracle:
             if size * 8 < off + n:
                 return "ok -3 " + hx(buf)
             return "ok 0 " + hx(self.put(buf, off, min(n, 64), v & ((1 << 64) - 1)))
+        if op == "min":
+            return "ok %d" % min(int(t[1]), int(t[2]))
+        mf = re.fullmatch(r"(set|get)f(32|64)", op)
+        if mf:          # the float travels as its bit pattern: SetF writes exactly that pattern, GetF returns the zero-extended field
+            buf, size, off, w = unhx(t[1]), int(t[2]), int(t[3]), int(mf.group(2))
+            if size > len(buf):
+                return None
+            if mf.group(1) == "get":
+                return "ok %d" % self.field(buf, size, off, w)
+            if size * 8 < off + w:
+                return "ok -3 " + hx(buf)
+            return "ok 0 " + hx(self.put(buf, off, w, int(t[4]) & ((1 << w) - 1)))
         if op.startswith("x."):
             return self.answer_cpp(op, t)
+        if op.startswith("pv."):
+            return self.answer_pv(op, t)
         if op.startswith("p."):
+            ext = self.answer_py_ext(op, t)
+            if ext is not NotImplemented:
+                return ext
             return self.answer_py(op, t)
         m = re.fullmatch(r"get([ui])(8|16|32|64)", op)
         if m:
@@ -215,8 +233,144 @@ class Oracle:
             v -= 1 << n
         return f"ok {v} {off + n}"
 
+    KINDS = {"i8": (True, 8), "i16": (True, 16), "i32": (True, 32), "i64": (True, 64), "u8": (False, 8), "u16": (False, 16), "u32": (False, 32), "u64": (False, 64)}
+
+    @classmethod
+    def kind_fits(cls, ty, c):
+        """can the Python int constant c be combined with an argument of this type (NEP 50: it must fit the scalar's type)?"""
+        if ty in ("int", "bool"):
+            return True
+        signed, bits = cls.KINDS["i64" if ty == "npbool" else ty]
+        return (-(1 << (bits - 1)) if signed else 0) <= c <= ((1 << (bits - 1)) - 1 if signed else (1 << bits) - 1)
+
+    def answer_pv(self, op, t):
+        """Typed arguments `<value>:<type>`.  The arbitrary-width methods (what generated code calls for array elements)
+        must serialize the integer the argument denotes WHATEVER its type; the standard-width methods compute in the
+        argument's own type, their contract covers the types that can hold the constants they use."""
+        buf, off = unhx(t[1]), int(t[2])
+        v, ty = t[3].split(":")
+        v = int(v)
+        if op in ("pv.add_uu", "pv.add_us", "pv.add_auns", "pv.add_asig"):
+            return self.answer_py(op.replace("pv.", "p."), [op, t[1], t[2], str(v), t[4]])
+        if op == "pv.add_ubit":
+            return self.answer_py("p.add_ubit", [op, t[1], t[2], "1" if v != 0 else "0"])
+        m = re.fullmatch(r"pv\.add_a([ui])(8|16|32|64)", op)
+        if not m:
+            return None
+        w = int(m.group(2))
+        if v < 0:
+            if not self.kind_fits(ty, 1 << w):
+                return None
+        elif w != 8 and not self.kind_fits(ty, 255):
+            return None
+        return self.answer_py(op.replace("pv.", "p."), [op, t[1], t[2], str(v)])
+
+    def answer_py_ext(self, op, t):
+        """cursor bookkeeping, views, forks, the ZeroExtendingBuffer surface (round 2)"""
+        if op == "p.new":
+            return "ok " + hx(bytes(int(t[1]) + 1)) + " 0"
+        if op == "p.zeb":
+            b = b"".join(unhx(f) for f in ([] if t[1] == "!" else t[1].split(",")))
+            return f"ok {hx(b)} {8 * len(b)}"
+        if op == "p.bytez":
+            b, i = unhx(t[1]), int(t[2])
+            return "err:usage" if i < 0 else "ok %d" % (b[i] if i < len(b) else 0)
+        if op == "p.slicez":
+            b, l, r = unhx(t[1]), int(t[2]), int(t[3])
+            return "err:usage" if not 0 <= l <= r else "ok " + hx((b[l:r] + bytes(r - l))[: r - l])
+        if op == "p.zfork":
+            b, o, l = unhx(t[1]), int(t[2]), int(t[3])
+            if l == 0:
+                return "ok -"
+            return "err:usage" if o + l > len(b) else "ok " + hx(b[o:o + l])
+        if op in ("p.buffer", "p.skip", "p.fork", "p.forkadd"):
+            buf, off = unhx(t[1]), int(t[2])
+            if le(buf) >> off:
+                return None                                    # invariant: zeros from the cursor on
+            if op == "p.buffer":
+                nb = (off + 7) // 8
+                return None if nb > len(buf) else "ok " + hx(buf[:nb])
+            if op == "p.skip":
+                n = int(t[3])
+                return None if n < 0 else f"ok {hx(buf)} {off + n}"
+            k = int(t[3])
+            refused = off % 8 != 0 or len(buf) - off // 8 < k + 1
+            if op == "p.fork":
+                return "err:usage" if refused else f"ok {hx(buf[off // 8: off // 8 + k + 1])} 0"
+            val, n = int(t[4]), int(t[5])
+            if refused or val < 0 or n < 1 or (n + 7) // 8 >= k + 1:
+                return None
+            return f"ok {hx((le(buf) | ((val & ((1 << n) - 1)) << off)).to_bytes(len(buf), 'little'))} {off + n}"
+        if op in ("p.dfork", "p.remaining", "p.dskip") or op.startswith("p.fz_"):
+            buf, off = unhx(t[1]), int(t[2])
+            if op == "p.remaining":
+                return f"ok {off} {8 * len(buf) - off}"
+            if op == "p.dskip":
+                n = int(t[3])
+                return "err:usage" if n < 0 else f"ok {off + n}"
+            if op == "p.dfork":
+                k = int(t[3])
+                if off % 8 != 0 or max(8 * len(buf) - off, 0) // 8 < k:
+                    return "err:usage"
+                return f"ok {hx(buf[off // 8: off // 8 + k])} {8 * k}"
+            n = int(t[3])
+            if n < 0:
+                return "err:usage"
+            return self.answer_py(op.replace("p.fz_", "p.f_"), [op, t[1], t[2], t[3]])
+        ma = re.fullmatch(r"p\.add_([au])arrs?(8|16|32|64)", op)
+        if ma:
+            buf, off, v = unhx(t[1]), int(t[2]), unhx(t[3])
+            if len(v) % (int(ma.group(2)) // 8):
+                return None
+            return self.answer_py("p.add_abytes" if ma.group(1) == "a" else "p.add_ubytes", [op, t[1], t[2], t[3]])
+        return NotImplemented
+
     def answer_cpp(self, op, t):
         """C++ bitspan: a span is (data, offset_bits); size() = max(0, 8*len(data) - offset)"""
+        if op == "x.info":
+            d, off, a = unhx(t[1]), int(t[2]), int(t[3])
+            if a == 0:
+                return None
+            return f"ok {max(0, 8 * len(d) - off)} {off} {off // 8} {(off + 7) // 8} {off % a} {int(off % a == 0)} {int(off % 8 == 0)}"
+        if op == "x.atoff":
+            d, off, b = unhx(t[1]), int(t[2]), int(t[3])
+            return f"ok {off + b} {max(0, 8 * len(d) - off - b)}"
+        if op in ("x.sub1", "x.subbytes"):
+            d, off, b = unhx(t[1]), int(t[2]), int(t[3])
+            if op == "x.sub1":
+                noff, size, start = (off + b) % 8, max(0, 8 * len(d) - off - b), off + b
+                first = self.field(d, len(d), start, min(size, 64))
+            else:
+                ob = min(off // 8, len(d))
+                nb = min(b, len(d) - ob)
+                noff, size = 0, 8 * nb
+                first = self.field(d[ob:ob + nb], nb, 0, min(size, 64))
+            return f"ok {noff} {size} ok {hx(first.to_bytes(8, 'little'))}"
+        if op == "x.aref":
+            d, off, plus = unhx(t[1]), int(t[2]), int(t[3])
+            i = (off + plus) // 8
+            return None if i >= len(d) else f"ok {i} {d[i]}"
+        if op == "x.copyall":
+            dst, d_off, src, s_off = unhx(t[1]), int(t[2]), unhx(t[3]), int(t[4])
+            n = max(0, len(src) * 8 - s_off)
+            if n and d_off + n > len(dst) * 8:
+                return None
+            return "ok " + hx(self.put(dst, d_off, n, (le(src) >> s_off) & ((1 << n) - 1)))
+        if op == "x.zeroall":
+            d, off = unhx(t[1]), int(t[2])
+            return "ok 0 " + hx(self.put(d, off, max(0, len(d) * 8 - off), 0))
+        ma = re.fullmatch(r"x\.align(8|16|32|64)", op)
+        if ma:
+            n, off = int(ma.group(1)), int(t[1])
+            return "ok %d" % ((off + n - 1) // n * n)
+        mf = re.fullmatch(r"x\.(set|get)f(32|64)", op)
+        if mf:
+            d, off, w = unhx(t[1]), int(t[2]), int(mf.group(2))
+            if mf.group(1) == "get":
+                return "ok %d" % self.field(d, len(d), off, w)
+            if len(d) * 8 < off + w:
+                return "ok -3 " + hx(d)
+            return "ok 0 " + hx(self.put(d, off, w, int(t[3]) & ((1 << w) - 1)))
         if op == "x.copy":
             dst, d_off, src, s_off, n = unhx(t[1]), int(t[2]), unhx(t[3]), int(t[4]), int(t[5])
             n = min(n, max(0, len(src) * 8 - s_off))           # documented clamp to the source size
@@ -334,6 +488,19 @@ def c_cases(ctx):
                 src = patterns(rng, ns, 2 if k != 1 else 0)
                 dst = patterns(rng, nd, k)
                 out.append((f"copy {hx(dst)} {d_off} {n} {hx(src)} {s_off}", "exh"))
+    # round 2: nunavutChooseMin, SetF32/64 / GetF32/64 as bit-pattern moves
+    for a in (0, 1, 7, 8, 255, 2 ** 32, 2 ** 63):
+        for b in (0, 1, 8, 9, 2 ** 32 - 1, 2 ** 64 - 1):
+            out.append((f"min {a} {b}", "exh"))
+    for w in (32, 64):
+        pats = [0, 1, (1 << w) - 1, 1 << (w - 1), 0x3FC00000 if w == 32 else 0x3FF8000000000000, (0x7FC00001 if w == 32 else 0x7FF8000000000001),
+                (0x7F800000 if w == 32 else 0x7FF0000000000000)] + [rng.getrandbits(w) for _ in range(2)]
+        for size in range(0, 12):
+            for off in (list(range(0, 18)) + [31, 32, 33, 63, 64, 65, 200]):
+                for k in range(3):
+                    h = hx(patterns(rng, size, k))
+                    out.append((f"getf{w} {h} {size} {off}", "exh"))
+                    out.append((f"setf{w} {h} {size} {off} {pats[(off + size + k) % len(pats)]}", "exh"))
     nexh = len(out)
     # random larger cases
     nrand = 20000 if ctx.quick else 400000
@@ -415,6 +582,35 @@ def cpp_cases(ctx):
                 # every third request asks for more than the source holds: the clamp must apply
                 ask = n + (5 if (s_off + n) % 3 == 0 and slack == 0 and (s_off + n) % 8 == 0 else 0)
                 out.append((f"x.copy {hx(dst)} {d_off} {hx(src)} {s_off} {ask}", "exh"))
+    # round 2: offset / window arithmetic of any_bitspan, whole-span overloads, align_offset_to, float pattern moves
+    for size in sizes:
+        for k in range(3):
+            h = hx(patterns(rng, size, k))
+            hz = hx(patterns(rng, size, [1, 2, 1][k]))
+            for off in list(offs) + [8 * size, 8 * size + 1, 8 * size + 9, 70, 200]:
+                for a in (1, 3, 8, 16, 32, 64):
+                    out.append((f"x.info {h} {off} {a}", "exh"))
+                for b in (0, 1, 5, 8, 13, 64, 8 * size, 300):
+                    out.append((f"x.atoff {h} {off} {b}", "exh"))
+                    out.append((f"x.sub1 {h} {off} {b}", "exh"))
+                for nb in (0, 1, 2, size, size + 3):
+                    out.append((f"x.subbytes {h} {off} {nb}", "exh"))
+                for plus in (0, 1, 7, 8, 9, 15, 16, 40):
+                    out.append((f"x.aref {h} {off} {plus}", "exh"))
+                out.append((f"x.zeroall {hz} {off}", "exh"))
+                for w in (32, 64):
+                    out.append((f"x.getf{w} {h} {off}", "exh"))
+                    out.append((f"x.setf{w} {h} {off} {rng.getrandbits(w) if k else (1 << w) - 1}", "exh"))
+    for s_off in offs:
+        for d_off in offs:
+            for ssize in (0, 1, 2, 5):
+                n = max(0, 8 * ssize - s_off)
+                src = patterns(rng, ssize, 2)
+                dst = patterns(rng, (d_off + n + 7) // 8 + ((s_off + d_off) % 2), (s_off + d_off) % 3)
+                out.append((f"x.copyall {hx(dst)} {d_off} {hx(src)} {s_off}", "exh"))
+    for n in (8, 16, 32, 64):
+        for off in list(range(0, 200)) + [2 ** 32 - 1, 2 ** 32, 2 ** 40 + 5, 2 ** 63 - 64]:
+            out.append((f"x.align{n} {off}", "exh"))
     nexh = len(out)
     nrand = 15000 if ctx.quick else 300000
     ops = getters + ["x.setu", "x.seti", "x.getbits", "x.copy", "x.setbit", "x.getbit", "x.setzeros", "x.setzeros", "x.pad", "x.subspan"]
@@ -456,7 +652,7 @@ def cpp_cases(ctx):
     return out, nexh, nrand
 
 
-LE_OPS = re.compile(r"^(setu|seti|get[ui](?:8|16|32|64)) ")
+LE_OPS = re.compile(r"^(setu|seti|get[ui](?:8|16|32|64)|[sg]etf(?:32|64)) ")
 
 
 def to_le(line: str) -> str:
@@ -474,7 +670,9 @@ def nontrivial(line: str) -> bool:
             return int(t[4]) > 0 and t[1] != "-"
         if op.startswith("x."):
             return t[1] != "-" and (len(t) < 4 or int(t[-1]) > 0)
-        if op.startswith("p."):
+        if op in ("min",) or op.startswith("x.align"):
+            return True
+        if op.startswith(("p.", "pv.")):
             return t[1] != "-" and t[-1] not in ("0", "-")
         if op in ("copy",):
             return int(t[3]) > 0 and (int(t[2]) % 8 != 0 or int(t[5]) % 8 != 0 or int(t[3]) % 8 != 0)
@@ -722,9 +920,13 @@ def ref_pack(w, x):
 
 
 def float_arg(w, arg):
-    """the Python float a request denotes: `<hex>` = pattern at width w, `d:<hex>` = binary64 pattern (to be converted)"""
+    """the Python float a request denotes: `<hex>` = pattern at width w, `d:<hex>` = binary64 pattern (to be converted),
+    `n16:<hex>` / `n32:` / `n64:` = the value of a numpy.float16/32/64 scalar with that pattern (passed as that scalar)"""
     if arg.startswith("d:"):
         return struct.unpack("<d", int(arg[2:], 16).to_bytes(8, "little"))[0]
+    if arg.startswith("n"):
+        sw = int(arg[1:3])
+        return struct.unpack(FLOAT_FMT[sw], int(arg[4:], 16).to_bytes(sw // 8, "little"))[0]
     return struct.unpack(FLOAT_FMT[w], int(arg, 16).to_bytes(w // 8, "little"))[0]
 
 
@@ -784,6 +986,14 @@ def py_float_cases(ctx):
                     out.append((f"p.add_uf{w} {hs} {off} d:{d:x}", "float-seq"))
                     # ... and its negation right after it
                     out.append((f"p.add_uf{w} {hs} {off} d:{d ^ (1 << 63):x}", "float-seq"))
+        # the argument is a NumPy float scalar of any width (what a numpy-typed attribute hands over)
+        for sw in (16, 32, 64):
+            e, m = {16: (5, 10), 32: (8, 23), 64: (11, 52)}[sw]
+            one_half = ((((1 << (e - 1)) - 1) << m) | (1 << (m - 1)))
+            for v in (0, 1 << (sw - 1), one_half, one_half | (1 << (sw - 1)), ((1 << e) - 1) << m, ((((1 << e) - 2) << m) | ((1 << m) - 1)), 1):
+                for off, kind in ((0, "a"), (8, "a"), (5, "u")):
+                    hs = hx(ser_buf(rng, (off + w + 7) // 8 + 1, off, 2))
+                    out.append((f"p.add_{kind}f{w} {hs} {off} n{sw}:{v:x}", "float-seq"))
     return out
 
 
@@ -827,15 +1037,18 @@ def py_model_line(line):
     fetch_*_bytes followed by `struct.unpack`: the model is asked for the byte-level operation."""
     t = line.split(" ")
     ma = re.fullmatch(r"p\.f_([au])arr(8|16|32|64)", t[0])
-    if ma:      # array of standard primitives (little-endian host) = the bytes, reinterpreted
-        return f"p.f_{ma.group(1)}bytes {t[1]} {t[2]} {int(t[3]) * int(ma.group(2)) // 8}"
+    if ma:      # array of standard primitives (little-endian host) = count * itemsize bytes, reinterpreted
+        return f"p.fstd_{ma.group(1)} {t[1]} {t[2]} {int(ma.group(2)) // 8} {t[3]}"
+    ma = re.fullmatch(r"p\.add_([au])arrs?(8|16|32|64)", t[0])
+    if ma:
+        return f"p.addstd_{ma.group(1)} {t[1]} {t[2]} {t[3]}"
     m = re.fullmatch(r"p\.(add|f)_([au])f(16|32|64)", t[0])
     if not m:
         return line
     w = int(m.group(3))
     if m.group(1) == "add":
-        return f"p.add_{m.group(2)}bytes {t[1]} {t[2]} {hx(ref_pack(w, float_arg(w, t[3])))}"
-    return f"p.f_{m.group(2)}bytes {t[1]} {t[2]} {w // 8}"
+        return f"p.addf_{m.group(2)} {t[1]} {t[2]} {hx(ref_pack(w, float_arg(w, t[3])))}"
+    return f"p.ff_{m.group(2)} {t[1]} {t[2]} {w}"
 
 
 def ser_buf(rng, nbytes, off, k):
@@ -932,8 +1145,132 @@ def py_cases(ctx):
             out.append((f"p.add_uu {hs} {min(off, big * 8)} {-val - 1} {n}", "rnd"))
         else:               # value wider than the field: truncated
             out.append((f"p.add_uu {hs} {min(off, big * 8)} {rng.getrandbits(n + 9)} {n}", "rnd"))
+    out += py_typed_cases(ctx)
+    out += py_glue_cases(ctx)
     out += py_float_cases(ctx)
     return out, nexh, nrand
+
+
+NP_KINDS = {"i8": (True, 8), "i16": (True, 16), "i32": (True, 32), "i64": (True, 64), "u8": (False, 8), "u16": (False, 16), "u32": (False, 32), "u64": (False, 64)}
+
+
+def kind_range(ty):
+    signed, bits = NP_KINDS[ty]
+    return (-(1 << (bits - 1)), (1 << (bits - 1)) - 1) if signed else (0, (1 << bits) - 1)
+
+
+def py_typed_cases(ctx):
+    """The integer methods called with arguments of every accepted type: Python int / bool, numpy.bool_, and NumPy integer
+    scalars of every fixed width (what the elements of generated intN[...] / uintN[...] array attributes are) — negative,
+    extreme and ordinary values, every bit length 1..64, aligned and unaligned."""
+    rng = ctx.rng
+    out = []
+
+    def room(off, n, v_for="u"):
+        nb = (off + n + 7) // 8 + 1
+        return hx(ser_buf(rng, nb, off, 2))
+
+    for ty in NP_KINDS:
+        lo, hi = kind_range(ty)
+        for n in range(1, 65):
+            # signed methods: the extremes of the n-bit range that the type can hold, -1, 0, 1 and a random one
+            if n >= 2:
+                nlo, nhi = -(1 << (n - 1)), (1 << (n - 1)) - 1
+                vals = {max(nlo, lo), max(nlo, lo) + 1, -1 if lo < 0 else 0, 0, 1, min(nhi, hi), rng.randint(max(nlo, lo), min(nhi, hi))}
+                for v in sorted(vals):
+                    for off in (0, 3) if (n + v) % 2 else (8, 13):
+                        out.append((f"pv.add_us {room(off, n)} {off} {v}:{ty} {n}", "typed"))
+                        if off % 8 == 0:
+                            out.append((f"pv.add_asig {room(off, n)} {off} {v}:{ty} {n}", "typed"))
+            # unsigned methods: 0, 1, all ones of n bits (if the type holds it), the type's maximum (truncated), random; one negative
+            vals = {0, 1, min((1 << n) - 1, hi), hi, rng.randint(0, hi)}
+            if lo < 0 and n % 8 == 1:
+                vals.add(-1)
+            for v in sorted(vals):
+                for off in (0, 5) if (n + v) % 2 else (16, 9):
+                    out.append((f"pv.add_uu {room(off, n)} {off} {v}:{ty} {n}", "typed"))
+                    if off % 8 == 0:
+                        out.append((f"pv.add_auns {room(off, n)} {off} {v}:{ty} {n}", "typed"))
+        # standard-width methods (computed in the argument's own type)
+        for w in (8, 16, 32, 64):
+            wlo, whi = -(1 << (w - 1)), (1 << (w - 1)) - 1
+            for v in sorted({max(lo, wlo), -1 if lo < 0 else 0, 0, 1, 5, min(hi, whi), min(hi, 255), min(hi, (1 << w) - 1), hi}):
+                hs = hx(ser_buf(rng, 10, 8, 2))
+                if v >= wlo and v <= whi:
+                    out.append((f"pv.add_ai{w} {hs} 8 {v}:{ty}", "typed"))
+                out.append((f"pv.add_au{w} {hs} 8 {v}:{ty}", "typed"))
+        for v in (lo, -1 if lo < 0 else 0, 0, 1, 2, hi):
+            for off in (0, 6, 7):
+                out.append((f"pv.add_ubit {hx(ser_buf(rng, 2, off, 2))} {off} {v}:{ty}", "typed"))
+    for ty, vals in (("int", (-(1 << 63), -129, -1, 0, 1, 200, 255, 256, (1 << 64) - 1)), ("bool", (0, 1)), ("npbool", (0, 1))):
+        for v in vals:
+            for n in (1, 2, 7, 8, 9, 31, 64):
+                for off in (0, 3):
+                    out.append((f"pv.add_uu {room(off, n)} {off} {v}:{ty} {n}", "typed"))
+                    if n >= 2:
+                        out.append((f"pv.add_us {room(off, n)} {off} {v}:{ty} {n}", "typed"))
+            hs = hx(ser_buf(rng, 10, 8, 2))
+            for w in (8, 16, 32, 64):
+                out.append((f"pv.add_au{w} {hs} 8 {v}:{ty}", "typed"))
+                out.append((f"pv.add_ai{w} {hs} 8 {v}:{ty}", "typed"))
+            out.append((f"pv.add_ubit {hx(ser_buf(rng, 2, 5, 2))} 5 {v}:{ty}", "typed"))
+    return out
+
+
+def py_glue_cases(ctx):
+    """Serializer.new / buffer / skip_bits / fork_bytes (+ writing through the fork), the bulk array methods, Deserializer
+    bookkeeping / skip_bits / fork_bytes, the ZeroExtendingBuffer surface, negative counts."""
+    rng = ctx.rng
+    out = []
+    for n in (0, 1, 2, 7, 64):
+        out.append((f"p.new {n}", "glue"))
+    for size in range(0, 7):
+        for off in list(range(0, 8 * size + 3)):
+            if off > 8 * size:
+                continue
+            hs = hx(ser_buf(rng, size, off, 2))
+            out.append((f"p.buffer {hs} {off}", "glue"))
+            for n in (0, 1, 7, 8, 32):
+                out.append((f"p.skip {hs} {off} {n}", "glue"))
+            for k in (0, 1, 2, size, size + 1):
+                out.append((f"p.fork {hs} {off} {k}", "glue"))
+                for nbits in (1, 5, 8, 9, 16):
+                    out.append((f"p.forkadd {hs} {off} {k} {rng.getrandbits(nbits + 2)} {nbits}", "glue"))
+    for w in (8, 16, 32, 64):
+        for count in (0, 1, 2, 3):
+            v = hx(bytes(rng.getrandbits(8) for _ in range(count * w // 8)))
+            for off in (0, 8, 3, 13):
+                hs = hx(ser_buf(rng, (off + 7) // 8 + count * w // 8 + 1, off, 2))
+                kind = "a" if off % 8 == 0 else "u"
+                out.append((f"p.add_{kind}arr{w} {hs} {off} {v}", "glue"))
+                out.append((f"p.add_{kind}arrs{w} {hs} {off} {v}", "glue"))        # the same elements as a strided view a[::2]
+                out.append((f"p.add_uarr{w} {hs} {off} {v}", "glue"))
+    for size in range(0, 6):
+        hd = hx(patterns(rng, size, 2))
+        out.append((f"p.zeb {hd}", "glue"))
+        out.append((f"p.zeb {hd},{hd}", "glue"))
+        out.append((f"p.zeb -,{hd},-", "glue"))
+        out.append((f"p.zeb 01,{hd},0203,-,ff", "glue"))
+        for i in (-2, -1, 0, 1, size - 1, size, size + 5):
+            out.append((f"p.bytez {hd} {i}", "glue"))
+            for r in (-1, 0, i, i + 1, size, size + 3):
+                out.append((f"p.slicez {hd} {i} {r}", "glue"))
+        for o in range(0, size + 3):
+            for l in (0, 1, 2, size):
+                out.append((f"p.zfork {hd} {o} {l}", "glue"))
+        for off in list(range(0, 8 * size + 20, 1 if size < 3 else 4)) + [8 * size, 8 * size + 8, 8 * size + 64]:
+            out.append((f"p.remaining {hd} {off}", "glue"))
+            for k in (0, 1, 2, size, size + 1):
+                out.append((f"p.dfork {hd} {off} {k}", "glue"))
+            for n in (-3, -1, 0, 1, 9, 64):
+                out.append((f"p.dskip {hd} {off} {n}", "glue"))
+            for n in (-5, -1, 0, 1, 8, 12):
+                for op in ("fz_ubits", "fz_uu"):
+                    out.append((f"p.{op} {hd} {off} {n}", "glue"))
+                if off % 8 == 0:
+                    for op in ("fz_abytes", "fz_abits", "fz_auns"):
+                        out.append((f"p.{op} {hd} {off} {n}", "glue"))
+    return out
 
 
 class PyImpl:
@@ -989,10 +1326,93 @@ class PyImpl:
         except (AssertionError, OverflowError, ZeroDivisionError):
             return "err:usage"
 
+    def typed(self, tok):
+        """`<value>:<type>` -> the Python / NumPy object a caller would pass"""
+        v, ty = tok.split(":")
+        v = int(v)
+        if ty == "int":
+            return v
+        if ty == "bool":
+            return bool(v)
+        if ty == "npbool":
+            return self.np.bool_(v)
+        return getattr(self.np, {"i": "int", "u": "uint"}[ty[0]] + ty[1:])(v)
+
+    def _answer_ext(self, line, t, op):
+        np, ns = self.np, self.ns
+        if op.startswith("pv."):
+            s = self.ser(unhx(t[1]), int(t[2]))
+            x = self.typed(t[3])
+            if op == "pv.add_uu": s.add_unaligned_unsigned(x, int(t[4]))
+            elif op == "pv.add_us": s.add_unaligned_signed(x, int(t[4]))
+            elif op == "pv.add_auns": s.add_aligned_unsigned(x, int(t[4]))
+            elif op == "pv.add_asig": s.add_aligned_signed(x, int(t[4]))
+            elif op == "pv.add_ubit": s.add_unaligned_bit(x)
+            else:
+                m = re.fullmatch(r"pv\.add_a([ui])(8|16|32|64)", op)
+                getattr(s, f"add_aligned_{m.group(1)}{m.group(2)}")(x)
+            return f"ok {hx(bytes(s._buf))} {s.current_bit_length}"
+        if op == "p.new":
+            s = ns.Serializer.new(int(t[1]))
+            return f"ok {hx(bytes(s._buf))} {s.current_bit_length}"
+        if op == "p.zeb":
+            z = ns.ZeroExtendingBuffer([memoryview(unhx(f)) for f in ([] if t[1] == "!" else t[1].split(","))])
+            return f"ok {hx(bytes(z._buf))} {z.bit_length}"
+        if op == "p.bytez":
+            return "ok %d" % ns.ZeroExtendingBuffer([memoryview(unhx(t[1]))]).get_byte(int(t[2]))
+        if op == "p.slicez":
+            return "ok " + hx(bytes(ns.ZeroExtendingBuffer([memoryview(unhx(t[1]))]).get_unsigned_slice(int(t[2]), int(t[3]))))
+        if op == "p.zfork":
+            frs = ns.ZeroExtendingBuffer([memoryview(unhx(t[1]))]).fork_bytes(int(t[2]), int(t[3]))
+            return "ok " + hx(b"".join(bytes(f) for f in frs))
+        if op in ("p.buffer", "p.skip", "p.fork", "p.forkadd"):
+            s = self.ser(unhx(t[1]), int(t[2]))
+            if op == "p.buffer":
+                return "ok " + hx(bytes(s.buffer))
+            if op == "p.skip":
+                s.skip_bits(int(t[3]))
+                return f"ok {hx(bytes(s._buf))} {s.current_bit_length}"
+            f = s.fork_bytes(int(t[3]))
+            if op == "p.fork":
+                return f"ok {hx(bytes(f._buf))} {f.current_bit_length}"
+            f.add_unaligned_unsigned(int(t[4]), int(t[5]))          # the fork writes through a view of the parent's buffer
+            s.skip_bits(f.current_bit_length)
+            return f"ok {hx(bytes(s._buf))} {s.current_bit_length}"
+        ma = re.fullmatch(r"p\.add_([au])arr(s?)(8|16|32|64)", op)
+        if ma:
+            s = self.ser(unhx(t[1]), int(t[2]))
+            a = np.frombuffer(bytes(unhx(t[3])), dtype=getattr(np, "uint" + ma.group(3)))
+            if ma.group(2):                                         # a strided (non-contiguous) view holding the same elements
+                a = np.repeat(a, 2)[::2]
+            getattr(s, f"add_{'aligned' if ma.group(1) == 'a' else 'unaligned'}_array_of_standard_bit_length_primitives")(a)
+            return f"ok {hx(bytes(s._buf))} {s.current_bit_length}"
+        if op in ("p.remaining", "p.dskip", "p.dfork") or op.startswith("p.fz_"):
+            buf = unhx(t[1])
+            d = self.de(buf, int(t[2]))
+            if op == "p.remaining":
+                return f"ok {d.consumed_bit_length} {d.remaining_bit_length}"
+            if op == "p.dskip":
+                d.skip_bits(int(t[3]))
+                return f"ok {d.consumed_bit_length}"
+            if op == "p.dfork":
+                f = d.fork_bytes(int(t[3]))
+                return f"ok {hx(bytes(f._buf._buf))} {f.remaining_bit_length}"
+            n = int(t[3])
+            if op == "p.fz_abytes": r = hx(bytes(d.fetch_aligned_bytes(n)))
+            elif op == "p.fz_abits": r = "".join("1" if x else "0" for x in d.fetch_aligned_array_of_bits(n)) or "-"
+            elif op == "p.fz_ubits": r = "".join("1" if x else "0" for x in d.fetch_unaligned_array_of_bits(n)) or "-"
+            elif op == "p.fz_auns": r = str(d.fetch_aligned_unsigned(n))
+            else: r = str(d.fetch_unaligned_unsigned(n))
+            return f"ok {r} {d.consumed_bit_length}"
+        return None
+
     def _answer(self, line):
         np, ns = self.np, self.ns
         t = line.split(" ")
         op = t[0]
+        ext = self._answer_ext(line, t, op)
+        if ext is not None:
+            return ext
         arr = lambda h: np.frombuffer(bytearray(unhx(h)), dtype=np.uint8)
         bits = lambda b: np.array([c == "1" for c in ("" if b == "-" else b)], dtype=bool)
         showbits = lambda a: "".join("1" if x else "0" for x in a) or "-"
@@ -1010,7 +1430,10 @@ class PyImpl:
             w, al = int(mf.group(3)), "aligned" if mf.group(2) == "a" else "unaligned"
             if mf.group(1) == "add":
                 s = self.ser(buf, off)
-                getattr(s, f"add_{al}_f{w}")(float_arg(w, t[3]))
+                x = float_arg(w, t[3])
+                if t[3].startswith("n"):                            # hand over a NumPy float scalar of that width
+                    x = getattr(np, "float" + t[3][1:3])(x)
+                getattr(s, f"add_{al}_f{w}")(x)
                 return f"ok {hx(bytes(s._buf))} {s._bit_offset}"
             d = self.de(buf, off)
             x = getattr(d, f"fetch_{al}_f{w}")()
@@ -1101,6 +1524,148 @@ def run_py(ctx, drv):
     ctx.extra.setdefault("targets", {})["py-numpy"] = {"requests": len(lines), "within_contract": ncontract, "contract_failures": nfail}
     ctx.extra["py_results_modified_in_place"] = getattr(impl, "scribbled", 0)
     ctx.sample({"request": lines[len(lines) // 2], "answer": impl.answer(lines[len(lines) // 2])})
+    return impl.path
+
+
+# =====================================================================================================
+# coverage: every function of the three support libraries is in a row of harness/c14_coverage.json
+# =====================================================================================================
+
+KEYWORDS = {"if", "while", "for", "switch", "return", "sizeof", "static_assert", "alignof", "decltype", "catch", "defined", "assert", "NUNAVUT_ASSERT"}
+
+def strip_c(text):
+    text = re.sub(r"/\*.*?\*/", " ", text, flags=re.S)
+    text = re.sub(r"//[^\n]*", " ", text)
+    text = re.sub(r'"(?:\\.|[^"\\])*"', '""', text)
+    # preprocessor lines (with continuations)
+    text = re.sub(r"^[ \t]*#(?:[^\n]*\\\n)*[^\n]*", " ", text, flags=re.M)
+    return text
+
+def c_like_functions(text):
+    """names declared/defined at namespace or class scope: [(qualified scope, name)]"""
+    text = strip_c(text)
+    out = []
+    scopes = []      # (kind, name) kind in ns/type/func/other
+    stmt = []
+    paren = 0
+    i, n = 0, len(text)
+    def head_name(s):
+        s = s.strip()
+        # drop leading template<...>
+        while s.startswith("template"):
+            d, j = 0, s.index("<")
+            while True:
+                if s[j] == "<": d += 1
+                elif s[j] == ">":
+                    d -= 1
+                    if d == 0: break
+                j += 1
+            s = s[j + 1:].strip()
+        if "(" not in s or s.startswith(("using ", "typedef ", "friend ")):
+            return None
+        k = s.index("(")
+        pre = s[:k].rstrip()
+        if "=" in pre and "operator" not in pre:
+            return None          # an initialised variable, not a function
+        m = re.search(r"((?:\w+::)*)(operator\s*(?:\(\)|\[\]|[^\s\w(]+|\w+)|~?\w+)$", pre)
+        if not m: return None
+        name = re.sub(r"\s+", "", m.group(2))
+        if name in KEYWORDS: return None
+        return m.group(1) + name
+    while i < n:
+        c = text[i]
+        if c == "(":
+            paren += 1; stmt.append(c)
+        elif c == ")":
+            paren -= 1; stmt.append(c)
+        elif c == "{" and paren == 0:
+            s = "".join(stmt).strip()
+            in_code = any(k == "func" for k, _ in scopes)
+            m = re.match(r"(?:inline\s+)?namespace\s*(\w*)|extern\s*\"\"", s)
+            t = re.search(r"\b(class|struct|union|enum(?:\s+class)?)\s+(\w+)[^()]*$", s)
+            if in_code:
+                scopes.append(("other", ""))
+            elif m:
+                scopes.append(("ns", m.group(1) or ""))
+            elif t and "(" not in s.split(t.group(0))[0][-1:]:
+                scopes.append(("type", t.group(2)))
+            else:
+                nm = head_name(s)
+                if nm:
+                    out.append(("::".join(x for k, x in scopes if x), nm))
+                    scopes.append(("func", nm))
+                else:
+                    scopes.append(("other", ""))
+            stmt = []
+        elif c == "}" and paren == 0:
+            if scopes: scopes.pop()
+            stmt = []
+        elif c == ";" and paren == 0:
+            s = "".join(stmt)
+            if not any(k in ("func", "other") for k, _ in scopes):
+                nm = head_name(s)
+                if nm:
+                    out.append(("::".join(x for k, x in scopes if x), nm))
+            stmt = []
+        else:
+            stmt.append(c)
+        i += 1
+    return out
+
+def py_functions(path, classes):
+    tree = ast.parse(pathlib.Path(path).read_text())
+    out = []
+    for node in tree.body:
+        if isinstance(node, ast.ClassDef) and node.name in classes:
+            for sub in node.body:
+                if isinstance(sub, (ast.FunctionDef, ast.AsyncFunctionDef)):
+                    out.append((node.name, sub.name))
+        if isinstance(node, ast.FunctionDef) and node.name in ("_ensure_cardinal",):
+            out.append(("", node.name))
+    return out
+
+
+
+PY_CLASSES = {"Serializer", "_LittleEndianSerializer", "_BigEndianSerializer", "Deserializer", "_LittleEndianDeserializer",
+              "_BigEndianDeserializer", "ZeroExtendingBuffer"}
+
+
+def support_functions(ctx, py_path):
+    """keys `c:<name>`, `cpp:<class>::<name>` / `cpp:<name>`, `py:<Class>.<name>` of everything the generated support files define"""
+    keys = set()
+    for scope, name in c_like_functions((ctx.scratch / "c_any" / "nunavut" / "support" / "serialization.h").read_text()):
+        keys.add("c:" + name)
+    for scope, name in c_like_functions((ctx.scratch / "cpp" / "nunavut" / "support" / "serialization.hpp").read_text()):
+        parts = [x for x in (scope.split("::") + name.split("::")) if x and x not in ("nunavut", "support", "detail", "options")]
+        keys.add("cpp:" + "::".join(parts[-2:]))
+    for cls, name in py_functions(py_path, PY_CLASSES):
+        keys.add("py:" + (cls + "." if cls else "") + name)
+    return keys
+
+
+def run_coverage(ctx, py_path):
+    doc = json.loads((HERE / "c14_coverage.json").read_text())
+    rows = doc["rows"]
+    try:
+        found = support_functions(ctx, py_path)
+    except (OSError, SyntaxError) as e:
+        ctx.broken.append({"kind": "coverage-scan", "error": repr(e)})
+        return
+    missing = sorted(found - set(rows))
+    stale = sorted(set(rows) - found)
+    proved = {n.split(".")[-1] for n in ctx.obligations}
+    unknown = sorted({(k, th) for k, r in rows.items() for th in r["theorems"] if th not in proved})
+    no_theorem = sorted(k for k, r in rows.items() if r["status"] == "theorem" and not r["theorems"])
+    ctx.extra["coverage"] = {"functions_in_templates": len(found), "rows": len(rows), "with_theorem": sum(1 for k in found if k in rows and rows[k]["status"] == "theorem"),
+                             "model_primitive": sum(1 for k in found if k in rows and rows[k]["status"] == "model-primitive"),
+                             "out_of_scope": sum(1 for k in found if k in rows and rows[k]["status"] == "out-of-scope"),
+                             "missing": missing, "stale_rows": stale}
+    if len(found) < 150:
+        ctx.broken.append({"kind": "coverage-scan", "error": f"only {len(found)} functions found in the generated support files"})
+    if missing:
+        ctx.broken.append({"kind": "coverage", "what": "functions of the support libraries without a row (no theorem, no stated reason)", "missing": missing})
+    if unknown or no_theorem:
+        ctx.broken.append({"kind": "coverage", "what": "rows naming theorems that are not among the proved obligations", "unknown": unknown[:20], "rows_without_theorem": no_theorem})
 
 
 def load_corpus(section):
@@ -1120,7 +1685,7 @@ def run(ctx: common.Ctx):
         from . import c14_float
     except ImportError:
         c14_float = None
-    mods, exes = ["C14"], ["bits"]
+    mods, exes = ["C14", "C14Ext"], ["bits"]
     if c14_float is not None and (common.LEAN / "NunavutVerif" / "Properties" / "C14Float.lean").exists():
         mods += [m for m in getattr(c14_float, "PROPERTY_MODULES", ["C14Float"]) if m not in mods]
         exes += [e for e in getattr(c14_float, "EXES", ["float16"]) if e not in exes]
@@ -1141,7 +1706,8 @@ def run(ctx: common.Ctx):
     ctx.exhaustive = False
     run_c(ctx, drv)
     run_cpp(ctx, drv)
-    run_py(ctx, drv)
+    py_path = run_py(ctx, drv)
+    run_coverage(ctx, py_path)
     if c14_float is not None and os.environ.get("VERIF_C14_SKIP_FLOAT") != "1":   # (development switch)
         c14_float.run_float(ctx, drivers)
 
